@@ -5,6 +5,7 @@ import Scion.Proofs.NetScmp2
 import Scion.Proofs.NetScmpPeer
 import Scion.Proofs.NetScmpPeer2
 import Scion.Proofs.NetAlert
+import Scion.Proofs.NetMulti10
 /-!
 # C10 — SCMP replies and traceroute answers travel back to the sender
 
@@ -143,6 +144,69 @@ theorem scmp_badmac_reply_delivered_partial (mac : MacFn) (net : Net) (now src d
       followReply mac net now src ek.ia 0 (.ext (inF cd ek)) rc = .delivered src trr cr :=
   badmac_reply_run mac net now src dst core cd ts hUp hSR seg0 e0 m1 ek mac' tlh hFL hsrc hsd hnd hmidd
     hexpU hdl hbad fuel
+
+/-- **SCMP 4/51 and 4/52 with several border routers per AS, router level** (no restriction on the
+    path): "bad MAC" and "expired hop" are decided by the ingress stage or at the cross-over, never
+    by the egress stage, so the router that receives the packet from outside (the owner of the
+    ingress interface) answers exactly as the single router of the collapsed AS would — whichever
+    router owns the egress interface.  `collapse net` is `net` with all interfaces on router 0. -/
+theorem scmp_mac_exp_decided_at_ingress_router (mac : MacFn) (net : Net) (now a r : Nat) (arr : Arrival)
+    (sl dl : Bool) (c : Cursor) (k e : Nat) (c1 : Cursor) (harr : ∀ k', arr ≠ .sibling k')
+    (hk : k = 51 ∨ k = 52)
+    (h : routerStep mac (cfgOf (collapse net) a) now arr sl dl c = .slow 4 k e c1) :
+    routerStep mac (cfgR net a r) now arr sl dl c = .slow 4 k e c1 :=
+  step_sim_stopped mac net now a r arr sl dl c k e c1 harr hk h
+
+/-- **C10, expired hop, ANY number of border routers per AS** (`_partial` only because the path is
+    a single segment — up, core or down, whole or shortcut, either direction, any position after
+    the source).  `send` hands the packet to the router owning the first egress interface; every
+    AS may cross it through two routers; the AS of `ek` stops it at the router `r` owning the
+    ingress interface with SCMP 4/52; the reply built by `prepareSCMP` is delivered in the source
+    AS, again through ASes with several routers.  Proof: `scmp_expired_reply_delivered_partial`
+    in the collapsed network, transferred by `run_sim_slow` / `send_sim_slow` (way there) and
+    `followReply_sim` (way back). -/
+theorem scmp_expired_reply_delivered_any_routers_partial (mac : MacFn) (net : Net) (now src dst : Nat)
+    (core cd : Bool) (ts : Nat) (hWF : WFNet net) (hUp : AllUp net)
+    (seg0 : Nat) (e0 : ASE) (m1 : List ASE) (ek : ASE) (exp' : Nat) (tlh : List Hop)
+    (hFL : FL mac net core cd ts seg0 (e0 :: (m1 ++ [ek])))
+    (hsrc : src = e0.ia) (hsd : src ≠ dst)
+    (hnd : ((e0 :: (m1 ++ [ek])).map (·.ia)).Nodup)
+    (hmidd : ∀ e ∈ m1, e.ia ≠ dst)
+    (hexpU : ∀ e ∈ e0 :: m1, expired now ts e.hop.exp = false)
+    (hexp' : expired now ts exp' = true) :
+    ∃ r tr c1 rc trr cr,
+      send mac net now src dst
+        ⟨[], ⟨cd, false, usedAt cd seg0 e0, ts⟩, [], hopOf e0.hop,
+          (m1.map fun e => hopOf e.hop) ++ { hopOf ek.hop with exp := exp' } :: tlh, []⟩ =
+        .stopped ek.ia r (.ext (inF cd ek)) (.slow 4 52 0 c1) tr ∧
+      replyOf (.slow 4 52 0 c1) (.ext (inF cd ek)) = some rc ∧
+      followReply mac net now src ek.ia r (.ext (inF cd ek)) rc = .delivered src trr cr :=
+  expired_reply_run_multi mac net now src dst core cd ts hWF hUp seg0 e0 m1 ek exp' tlh hFL hsrc hsd hnd
+    hmidd hexpU hexp'
+
+/-- **C10, hop field with a wrong MAC, ANY number of border routers per AS** (single-segment
+    paths, any position; SCMP 4/51) -/
+theorem scmp_badmac_reply_delivered_any_routers_partial (mac : MacFn) (net : Net) (now src dst : Nat)
+    (core cd : Bool) (ts : Nat) (hWF : WFNet net) (hUp : AllUp net)
+    (seg0 : Nat) (e0 : ASE) (m1 : List ASE) (ek : ASE) (mac' : Nat) (tlh : List Hop)
+    (hFL : FL mac net core cd ts seg0 (e0 :: (m1 ++ [ek])))
+    (hsrc : src = e0.ia) (hsd : src ≠ dst)
+    (hnd : ((e0 :: (m1 ++ [ek])).map (·.ia)).Nodup)
+    (hmidd : ∀ e ∈ m1, e.ia ≠ dst)
+    (hexpU : ∀ e ∈ e0 :: (m1 ++ [ek]), expired now ts e.hop.exp = false)
+    (hdl : tlh.isEmpty = (ek.ia == dst))
+    (hbad : macOk mac (net ek.ia).key
+      ⟨cd, false, usedSeg cd (Scion.SegID.extractBeta (Scion.SegID.updateSegID seg0 (pfx e0.hop.mac)) (sig m1))
+        { hopOf ek.hop with mac := mac' }, ts⟩ { hopOf ek.hop with mac := mac' } = false) :
+    ∃ r tr c1 rc trr cr,
+      send mac net now src dst
+        ⟨[], ⟨cd, false, usedAt cd seg0 e0, ts⟩, [], hopOf e0.hop,
+          (m1.map fun e => hopOf e.hop) ++ { hopOf ek.hop with mac := mac' } :: tlh, []⟩ =
+        .stopped ek.ia r (.ext (inF cd ek)) (.slow 4 51 0 c1) tr ∧
+      replyOf (.slow 4 51 0 c1) (.ext (inF cd ek)) = some rc ∧
+      followReply mac net now src ek.ia r (.ext (inF cd ek)) rc = .delivered src trr cr :=
+  badmac_reply_run_multi mac net now src dst core cd ts hWF hUp seg0 e0 m1 ek mac' tlh hFL hsrc hsd hnd
+    hmidd hexpU hdl hbad
 
 /-- a stopped packet is only ever answered by the AS that stopped it, over the link it came in on:
     `followReply` starts at the neighbour on that link (definitional, recorded for the reader) -/
